@@ -28,11 +28,15 @@ RULE = ('cases = (box corners in any order, flat in 0..2 axes, coordinates to 1e
         'state; ray kinds: random, aimed at a point of the box, axis-parallel with +0/-0 components and origins on/inside/outside each '
         'slab (incl. one ulp off a face), origin on faces/edges/corners, grazing within 1e-12..1e-5 relative, origin inside, pointing away, '
         'transversal hits of flat boxes; unit, raw and rescaled directions; inv_dir = 1/d; recorded findings first; non-trivial = not '
-        'rejected by the first early exit (path tag != 1); distinct = distinct input bits')
+        'rejected by the first early exit (path tag != 1); distinct = distinct input bits; thorough tier: also 12000 cases of the f32 build '
+        '(grazing ladder 1.2e-7..1e-3; correspondence only, no oracle)')
 ASSUMPTIONS = [
     'Coq 8.16.1 kernel + vm_compute; Thm 1 is about the real-number instance of the model (exact tier), Thm 2 about the Flocq '
     'instance for every binary format (IEEE special values), witnesses by vm_compute on binary64',
     'model = code: BBox3D::new and BBox3D::intersect checked bit-for-bit on primitive floats on every generated case',
+    'f32 build (thorough tier): the same runner text instantiated on the binary32 instance (module C14f32 of Run/C14.v on NumF32fast, proved equal to the '
+    'Flocq-rounded NumF32 in Run/FastNum32Proof.v) against the harness built with --features float, bit for bit (inv_dir, corner normalisation, answer, path); '
+    'CORRESPONDENCE ONLY: the exact-rational oracle does not judge f32 cases',
     'Thm 3 (float evaluation vs exact evaluation for finite slabs, all direction components non-zero): proved for every binary '
     'format with the relative margin 1+2u between exact parameters of different axes, under explicit side conditions the model '
     'evaluates (margin_okb: finite inputs, 1/d and the six products normal numbers or exact zeros, no overflow); outside these '
@@ -50,10 +54,15 @@ THEOREMS = ['C14_intersect_characterised', 'C14_complete', 'C14_sound', 'C14_x_s
 def streams(tier):
     if tier == 'quick': return [Stream('C14', 4000)]
     if tier == 'search': return [Stream('C14', 40000)]
-    return [Stream('C14', 60000), Stream('C14', 20000, release=True)]
+    # f32 build (thorough tier): correspondence only, the oracle does not judge f32 cases
+    return [Stream('C14', 60000), Stream('C14', 20000, release=True), Stream('C14', 12000, f32=True)]
+
+def is_f32(c, st=None):
+    """cases of the f32 build carry "f32": true (harness/src/c14.rs); the stream flag says the same"""
+    return bool(c.get('f32') or (st is not None and getattr(st, 'f32', False)))
 
 def vals(c, st, key):
-    fm = Fmt(st.f32 if st is not None else False)
+    fm = Fmt(is_f32(c, st))
     return [fm.fl(b) for b in c[key]]
 
 def neg_zero(x): return x == 0.0 and math.copysign(1.0, x) < 0
@@ -98,6 +107,8 @@ def lost_class(bb, o, d):
     return None
 
 def oracle(c, st):
+    # f32 build: correspondence only (REL_T / REL_MISS / T_TINY and the `inv == 1/d` test below are written for binary64)
+    if is_f32(c, st): return None
     a, b, o, d, inv, bb = (vals(c, st, k) for k in ('a', 'b', 'o', 'd', 'inv', 'bb'))
     if not all(finite(x) for x in a + b + o + d): return None
     if all(x == 0 for x in d): return None                       # not a ray
